@@ -139,8 +139,34 @@ func (c *Ctx) fieldsWrittenByCalls(fi *FuncInfo) map[string]token.Pos {
 
 func (c *Ctx) newickFields(wt, wn, pi, pp *FuncInfo) {
 	clause := "the same tip and internal-node names, branch lengths, supports (with p-values) and node/branch comments"
+	// the writer and the parser, each with the unexported helpers of its package it calls (a block
+	// moved into a helper still belongs to the writer / parser)
+	withHelpers := func(roots []*FuncInfo) []*FuncInfo {
+		out := append([]*FuncInfo{}, roots...)
+		seen := map[*types.Func]bool{}
+		for _, r := range roots {
+			seen[r.Obj] = true
+		}
+		for i := 0; i < len(out) && len(out) < 24; i++ {
+			for _, call := range callsIn(out[i].Decl.Body, true) {
+				g := calleeOf(out[i].Pkg.TypesInfo, call)
+				if g == nil || seen[g] || g.Exported() || g.Pkg() != out[i].Obj.Pkg() {
+					continue
+				}
+				c.indexAccessors()
+				if _, isGetter := c.getters[g]; isGetter {
+					continue
+				}
+				if gi := c.FuncOfObj(g); gi != nil && gi.Decl.Body != nil {
+					seen[g] = true
+					out = append(out, gi)
+				}
+			}
+		}
+		return out
+	}
 	printed := map[string]token.Pos{}
-	for _, fi := range []*FuncInfo{wt, wn} {
+	for _, fi := range withHelpers([]*FuncInfo{wt, wn}) {
 		for k, p := range c.fieldsRead(fi) {
 			if !structuralFields[k] {
 				if _, ok := printed[k]; !ok {
@@ -150,7 +176,7 @@ func (c *Ctx) newickFields(wt, wn, pi, pp *FuncInfo) {
 		}
 	}
 	parsed := map[string]token.Pos{}
-	for _, fi := range []*FuncInfo{pi, pp} {
+	for _, fi := range withHelpers([]*FuncInfo{pi, pp}) {
 		for k, p := range c.fieldsWrittenByCalls(fi) {
 			if !structuralFields[k] {
 				if _, ok := parsed[k]; !ok {
